@@ -130,7 +130,16 @@ pub fn generate_for(prop: &str, seed: u64, n: usize, _thorough: bool, _corpus: O
     for i in 0..n {
         let (tag, cfg) = &cfgs[i % cfgs.len()];
         let (m, _) = gen_model::model(&mut r, cfg);
-        out.push(one(&m, tag, prop));
+        let c = one(&m, tag, prop);
+        // the same model through the COMPOSED model (bounds port + linearizer port), every third case
+        if i % 3 == 0 {
+            let mut f = c.clone();
+            f.req = format!("linearize-full {} {}", sx::model(&m), sx::num(1e-9));
+            f.oracle = String::new();
+            f.tags.push("full-pipeline".into());
+            out.push(f);
+        }
+        out.push(c);
     }
     out
 }
